@@ -18,6 +18,9 @@ type c01Case struct {
 	I     int32     `json:"i"`
 	// Then: for "retained" cases, the bitmap whose indexes were built afterwards
 	Then gen.Words `json:"then,omitempty"`
+	// long bitmaps are named by (length, pattern) of the sweep generator instead of being listed
+	Len     int `json:"len,omitempty"`
+	Pattern int `json:"pattern,omitempty"`
 }
 
 func init() {
@@ -25,7 +28,7 @@ func init() {
 		ID:    "C01",
 		Level: "exploration",
 		Rule: "E1 bounded-exhaustive enumeration: every bitmap of B(n,0) ∪ B1(m) (≤n words over the 12-word core alphabet; ≤m words with exactly one word from the wide alphabet of single bits, low-j masks, complements and adjacent pairs) " +
-			"× {IndexRank64 (no option, false, true), IndexRank128} and × every position i × {Rank64 on the plain index, Rank64 on the trailing index, Rank128}; oracle = bit-by-bit running count; plus a length sweep (every length 0..N words × 4 word patterns, all index flavours, all positions) in which every returned index is compared once more after the NEXT bitmap's indexes have been built (an index must not change because another one is built). " +
+			"× {IndexRank64 (no option, false, true), IndexRank128} and × every position i × {Rank64 on the plain index, Rank64 on the trailing index, Rank128}; oracle = bit-by-bit running count; plus a length sweep (every length 0..N words × 4 word patterns, all index flavours, all positions) in which every returned index is compared once more after the NEXT bitmap's indexes have been built (an index must not change because another one is built), and 195 bitmaps whose lengths lie within 9 words of every power of two from 2^10 to 2^16 words. " +
 			"A case is one (bitmap, position) pair or one (bitmap, index flavour); it is non-trivial when the bitmap has ≥2 words, at least one 1 and at least one 0. Cases are distinct by construction (product of duplicate-free alphabets).",
 		Assumptions: []string{
 			"64-bit words outside the core/wide alphabets and bitmaps longer than the bound are not enumerated (small-scope: the code's case splits are bit offset mod 64, word parity, left/right 128-bit half)",
@@ -126,6 +129,73 @@ func c01Run(c *mc.Ctx) {
 		}
 		c.Expect(exp - 1) // the very first bitmap has no predecessor to re-check
 		c01Sweep(c, maxLen)
+	}
+	// lengths around powers of two up to 2^16 words (64 KiB .. 512 KiB of bitmap): size thresholds
+	// at which an implementation may switch strategy (chunking, parallel build)
+	{
+		var lens []int
+		for p := uint(10); p <= 16; p++ {
+			for _, d := range []int{-1, 0, 1, 2, 3, 5, 7, 8, 9} {
+				lens = append(lens, 1<<p+d)
+			}
+		}
+		lens = append(lens, 10001, 12345)
+		type job struct{ l, p int }
+		var jobs []job
+		for _, l := range lens {
+			for _, p := range []int{0, 1, 3} {
+				jobs = append(jobs, job{l, p})
+				c.Expect(3 + 2*64*int64(l))
+			}
+		}
+		c.Par(len(jobs), func(ji int) {
+			if c.TooMany() {
+				return
+			}
+			j := jobs[ji]
+			w := c01SweepBitmap(j.l, j.p)
+			order := int64(3)<<56 | int64(j.l)<<8 | int64(j.p)
+			pre := make([]int32, 0, j.l)
+			n := int32(0)
+			for _, x := range w {
+				pre = append(pre, n)
+				n += int32(bits.OnesCount64(x)) // (the popcount loop reference is cross-checked on the small spaces)
+			}
+			w64t := append(append([]int32(nil), pre...), n)
+			w128 := ref128(pre, n, j.l)
+			cs := func(i int32) c01Case { return c01Case{Words: nil, I: i, Len: j.l, Pattern: j.p} }
+			i64, p1 := idxRank64(w)
+			i64t, p3 := idxRank64(w, true)
+			i128, p4 := idxRank128(w)
+			if p1 != "" || !eqI32(i64, pre) {
+				c.Fail(order, "IndexRank64", "IndexRank64", cs(0), p1+"(differs)", "(reference)")
+			}
+			if p3 != "" || !eqI32(i64t, w64t) {
+				c.Fail(order, "IndexRank64/true", "IndexRank64", cs(0), p3+"(differs)", "(reference)")
+			}
+			if p4 != "" || !eqI32(i128, w128) {
+				c.Fail(order, "IndexRank128", "IndexRank128", cs(0), p4+"(differs)", "(reference)")
+			}
+			if p1 == "" && p4 == "" {
+				run := int32(0)
+				bad := 0
+				for i := int32(0); i < int32(64*j.l) && bad < 3; i++ {
+					bit := int32(w[i>>6] >> uint(i&63) & 1)
+					if a, b, pp := rank64(w, i64, i); pp || a != run || b != bit {
+						c.Fail(order, "Rank64", "Rank64", cs(i), "", "")
+						bad++
+					}
+					if a, b, pp := rank128(w, i128, i); pp || a != run || b != bit {
+						c.Fail(order, "Rank128", "Rank128", cs(i), "", "")
+						bad++
+					}
+					run += bit
+				}
+			}
+			e := 3 + 2*64*int64(j.l)
+			c.Count(e, e)
+			c.Add("power_of_two_length_bitmaps", 1)
+		})
 	}
 	c.Par(len(shards), func(si int) {
 		if c.TooMany() {
@@ -321,6 +391,43 @@ func ref128(pre []int32, total int32, nwords int) []int32 {
 
 func c01Judge(kind string, cs c01Case) (got, want string) {
 	w := []uint64(cs.Words)
+	if cs.Len > 0 {
+		w = c01SweepBitmap(cs.Len, cs.Pattern)
+		if kind == "IndexRank64" || kind == "IndexRank64/true" || kind == "IndexRank128" {
+			// too long to print: compare and name the first differing entry
+			var pre []int32
+			n := int32(0)
+			for _, x := range w {
+				pre = append(pre, n)
+				n += naivePop(x)
+			}
+			var g, r []int32
+			var p string
+			switch kind {
+			case "IndexRank64":
+				g, p = idxRank64(w)
+				r = pre
+			case "IndexRank64/true":
+				g, p = idxRank64(w, true)
+				r = append(pre, n)
+			default:
+				g, p = idxRank128(w)
+				r = ref128(pre, n, len(w))
+			}
+			if p != "" {
+				return p, "index of " + fmt.Sprint(len(r)) + " entries"
+			}
+			if len(g) != len(r) {
+				return fmt.Sprintf("%d entries", len(g)), fmt.Sprintf("%d entries", len(r))
+			}
+			for i := range r {
+				if g[i] != r[i] {
+					return fmt.Sprintf("entry %d = %d", i, g[i]), fmt.Sprintf("entry %d = %d", i, r[i])
+				}
+			}
+			return "index matches", "index matches"
+		}
+	}
 	var pre []int32
 	n := int32(0)
 	for _, x := range w {
